@@ -16,7 +16,15 @@ for d in sorted(glob.glob("/verif/seeded/*")):
                 break
     cr = m.get("check_result", {})
     tier = "quick" if cr.get("quick", {}).get("exit") == 1 else ("thorough" if cr.get("thorough", {}).get("exit") == 1 else "MISSED")
+    also = [o for o, v in (m.get("also_checked") or {}).items() if v.get("exit") == 1]
+    if tier == "MISSED" and also:
+        tier = "not by `./check %s`; by `./check %s quick`" % (m["breaks_property"], "`, `./check ".join(also) + "")
     kind = ""
+    if tier.startswith("not by"):
+        for o in also:
+            for l in m["also_checked"][o].get("output") or []:
+                if "kind=" in l and not kind:
+                    kind = l.split("kind=")[1].split()[0]
     for t in ("quick", "thorough"):
         for l in (cr.get(t, {}).get("output") or []):
             if "kind=" in l:
